@@ -352,7 +352,7 @@ Definition unprotect_pre : M upre :=
   let est_net := be64 (est * 65536) in
   let enc0 := hdr_len pkt + (if hdr_x pkt =? 1 then xtn_len pkt else 0) in
   (* srtp_cryptex_unprotect_init: profile and length are read from the received packet *)
-  inuse <- (if s_cryptex st && (hdr_x pkt =? 1) then
+  inuse <- (if s_cryptex st && negb (Z.land (s_rtp_serv st) sec_serv_conf_c =? 0) && (hdr_x pkt =? 1) then
               h <- rd_src (hdr_len pkt) 4 ;;
               let profile := be16 h 0 in
               ret ((profile =? cryptex_one_byte_profile_c) || (profile =? cryptex_two_byte_profile_c))
